@@ -201,6 +201,19 @@ def corrupt_trace(family, src, dst, seed):
     return corrupt.corrupt(family, src, dst, seed)
 
 
+def prune(family, keep=3):
+    """bound the disk used by old traces and cached verdicts (the newest `keep` per family stay)"""
+    tdirs = sorted(glob.glob(os.path.join(OUT, "traces", f"{family}-*")), key=os.path.getmtime, reverse=True)
+    for d in tdirs[keep:]:
+        shutil.rmtree(d, ignore_errors=True)
+    cfs = sorted(glob.glob(os.path.join(OUT, "cache", "engine", f"{family}-*.json")), key=os.path.getmtime, reverse=True)
+    for f in cfs[keep * 3:]:
+        try:
+            os.remove(f)
+        except OSError:
+            pass
+
+
 def engine(family, seed, tier):
     """drivers of a family -> traces -> TLC verdicts. Cached on (repo, harness, spec, seed, tier)."""
     fam = FAMILIES[family]
@@ -217,6 +230,7 @@ def engine(family, seed, tier):
                 r["cached"] = True
                 return r
         t0 = time.time()
+        prune(family)
         tdir = os.path.join(OUT, "traces", f"{family}-{key}")
         os.makedirs(tdir, exist_ok=True)
         res = {"family": family, "seed": seed, "tier": tier, "key": key, "drivers": [], "cached": False}
